@@ -1,53 +1,168 @@
 import Sigc.Model
-import Sigc.Lemmas.Basic
-import Sigc.Lemmas.Frames
+import Sigc.Run
+import Sigc.Lemmas.EmitMutual
 /-!
 # C03 — slots may connect, disconnect, destroy or re-emit during an emission, safely
-(first theorems: the deferral rule; the all-history safety theorem is being proved in Sigc/Lemmas/Emit*.lean)
+
+Theorems about the mechanism model `P` (`Sigc.Model`): every state the interpreter can reach satisfies
+the invariant `Sigc.Emit.Inv` (ids unique and below the allocator, per-impl accounting
+`exec_count_ = #holders = #end markers`, `deferred_` exactly when an unlinked invalid cell waits for the
+sweep, every handle's impl exists, every `make_slot()` forwarder held by a slot refers to a live signal
+object, no model error), and everything that runs — at top level or inside any emission at any depth —
+is a `Sigc.Emit.Frame` step: the emission counters are restored and the cell sequence of an impl that is
+emitting survives as a contiguous block (nothing an active emission still points at is erased).
+All statements are for every fuel, program and state; proofs are by mutual induction on fuel
+(`Sigc.Emit.all_ok`).
 -/
 namespace Sigc.C03
-open Sigc.Model
+open Sigc.Model Sigc.Emit
 
-/-- while an emission (or `clear`/`sweep`) of list `i` is running (`exec > 0`), the parent
-    notification of a disconnected slot erases nothing: the list is untouched, only `deferred` is set -/
-theorem notifyParent_defers_while_emitting (s : St) (i cid : Nat) (im : Impl)
-    (hi : aget s.impls i = some im) (he : im.exec > 0) :
-    (notifyParent s i cid).impls = aset s.impls i { im with deferred := true } ∧
-    (notifyParent s i cid).C = s.C ∧ (notifyParent s i cid).K = s.K := by
-  unfold notifyParent
-  have : ¬ im.exec = 0 := by omega
-  simp [hi, this]
+/-- the initial state satisfies the invariant -/
+theorem inv_init : Inv ({} : St) := Sigc.Emit.inv_init
 
-/-- outside any emission the cell is erased at once and every connection to it is nulled -/
-theorem notifyParent_erases_when_idle (s : St) (i cid : Nat) (im : Impl)
-    (hi : aget s.impls i = some im) (he : im.exec = 0) :
-    notifyParent s i cid = eraseCell s i cid := by
-  unfold notifyParent
-  simp [hi, he]
+/-- every state reached by the driver's `runTop` (after any number of top-level operations, i.e. for
+    every prefix `ls` of a program) satisfies the invariant -/
+theorem inv_reachable (fuel : Nat) (P : Prog) (ls : List Line) (s : St)
+    (h : runTop fuel P {} ls = some s) : Inv s :=
+  (runTop_good fuel P {} ls s Sigc.Emit.inv_init h).inv
 
-/-- `unreference_exec()`: the deferred sweep runs exactly when the execution count returns to zero -/
-theorem unrefExec_sweeps_iff (s : St) (i : Nat) (im : Impl) (hi : aget s.impls i = some im) :
-    unrefExec s i =
-      (if im.exec - 1 = 0 ∧ im.deferred = true
-       then sweep (setImpl s i { im with exec := im.exec - 1 }) i
-       else setImpl s i { im with exec := im.exec - 1 }) := by
-  unfold unrefExec
-  simp only [hi]
-  by_cases h1 : im.exec - 1 = 0 <;> by_cases h2 : im.deferred = true <;> simp [h1, h2]
+/-- **C03.safe** — the model never reports "iterator invalidated", "end marker missing", "impl destroyed
+    during emission", "dangling impl", "forward to a destroyed signal object", "slot variable destroyed
+    during its own call" or "insert: no impl": for every fuel, every program and every terminating run -/
+theorem safe (fuel : Nat) (P : Prog) (s : St) (h : runTop fuel P {} P.top = some s) : s.err = none :=
+  (inv_reachable fuel P P.top s h).noerr
 
-/-- `sweep()` leaves only non-empty cells and resets `deferred` -/
-theorem sweep_leaves_no_empty (s : St) (i : Nat) (im : Impl) (hi : aget s.impls i = some im) :
-    ∃ im', aget (sweep s i).impls i = some im' ∧ im'.deferred = false ∧ ∀ c ∈ im'.cells, c.slot.empty = false := by
-  unfold sweep
-  simp only [hi]
-  rw [nullConnsList_impls]
-  refine ⟨{ im with deferred := false, cells := im.cells.filter (fun c => !c.slot.empty) }, by simp, rfl, ?_⟩
+/-- the same for every prefix of the top-level operations -/
+theorem safe_prefix (fuel : Nat) (P : Prog) (ls : List Line) (s : St) (h : runTop fuel P {} ls = some s) :
+    s.err = none :=
+  (inv_reachable fuel P ls s h).noerr
+
+/-- **C03.safe**, inside emissions: from any state satisfying the invariant, every function of the
+    interpreter — one operation, a functor body, a functor invocation, an emission — ends in a state
+    satisfying the invariant (in particular without error), at every nesting depth -/
+theorem safe_inside (f : Nat) (P : Prog) (s : St) (hs : Inv s) :
+    (∀ op s' r, execOp f P s op = some (s', r) → Inv s' ∧ s'.err = none) ∧
+    (∀ l s' o, execLine f P s l = some (s', o) → Inv s' ∧ s'.err = none) ∧
+    (∀ ls s' o, runBody f P s ls = some (s', o) → Inv s' ∧ s'.err = none) ∧
+    (∀ fn arg s' o v, FunOK s.G fn → invokeFun f P s fn arg = some (s', o, v) → Inv s' ∧ s'.err = none) ∧
+    (∀ g h arg strat s' o v, aget s.G g = some h →
+        emitImpl f P s h.fl h.impl arg strat = some (s', o, v) → Inv s' ∧ s'.err = none) := by
+  have A := all_ok f
+  refine ⟨?_, ?_, ?_, ?_, ?_⟩
+  · intro op s' r h; have := (A.op P s op s' r hs h).inv; exact ⟨this, this.noerr⟩
+  · intro l s' o h; have := (A.line P s l s' o hs h).inv; exact ⟨this, this.noerr⟩
+  · intro ls s' o h; have := (A.body P s ls s' o hs h).inv; exact ⟨this, this.noerr⟩
+  · intro fn arg s' o v hf h; have := (A.invoke P s fn arg s' o v hs hf h).inv; exact ⟨this, this.noerr⟩
+  · intro g hd arg strat s' o v hg h
+    have := (A.emit P s hd.fl hd.impl arg strat s' o v hs
+      (fun i hi => hs.himpl (g, hd) (aget_some_mem hg) i hi) h).inv
+    exact ⟨this, this.noerr⟩
+
+/-- **C03.frame** — whatever an operation or a whole functor body does (including nested emissions of
+    the same or other signals, `clear()`, destroying trackables or signal handles, exceptions), it is a
+    `Frame` step … -/
+theorem frame (f : Nat) (P : Prog) (s : St) (hs : Inv s) :
+    (∀ op s' r, execOp f P s op = some (s', r) → Frame s s') ∧
+    (∀ ls s' o, runBody f P s ls = some (s', o) → Frame s s') :=
+  ⟨fun op s' r h => ((all_ok f).op P s op s' r hs h).frame,
+   fun ls s' o h => ((all_ok f).body P s ls s' o hs h).frame⟩
+
+/-- … i.e. for every impl that is emitting (`exec_count_ > 0`): it still exists afterwards, `exec_count_`
+    and the number of holders are unchanged, and its old cell-id sequence survives as a contiguous block
+    `pre ++ old ++ post` — no cell of an active emission's `[begin, marker]` range is erased -/
+theorem frame_spelled_out (s s' : St) (hs : Inv s) (hs' : Inv s') (hf : Frame s s') (i : Nat) (im : Impl)
+    (hi : aget s.impls i = some im) (hx : 0 < im.exec) :
+    ∃ im', aget s'.impls i = some im' ∧ im'.exec = im.exec ∧ im'.holders = im.holders ∧
+      ∃ pre post, im'.cells.map (·.id) = pre ++ im.cells.map (·.id) ++ post := by
+  obtain ⟨im', hi', pre, post, hk⟩ := hf.keep i im hi hx
+  have he := hf.exec i
+  rw [execOf_pos hi', execOf_pos hi] at he
+  refine ⟨im', hi', he, ?_, pre.map (·.1), post.map (·.1), ?_⟩
+  · have a := (hs.ok i im hi).eh; have b := (hs'.ok i im' hi').eh; omega
+  · have := congrArg (List.map (·.1)) hk
+    rw [← cids_eq_skel] at this
+    simp only [List.map_append] at this
+    rw [← cids_eq_skel] at this
+    exact this
+
+/-- an emission restores `exec_count_` of every impl (also of the ones created or destroyed meanwhile:
+    absent counts as 0), whether it ends normally or by an exception -/
+theorem emit_restores_exec (f : Nat) (P : Prog) (s : St) (hs : Inv s) (g : Nat) (h : Handle) (arg : Nat)
+    (strat : Strat) (s' : St) (o : Outcome) (v : Nat) (hg : aget s.G g = some h)
+    (he : emitImpl f P s h.fl h.impl arg strat = some (s', o, v)) : ∀ i, execOf s' i = execOf s i :=
+  ((all_ok f).emit P s h.fl h.impl arg strat s' o v hs
+    (fun i hi => hs.himpl (g, h) (aget_some_mem hg) i hi) he).frame.exec
+
+/-- **C03.quiescent_clean** — between top-level operations every signal is quiescent and clean:
+    `exec_count_ = 0`, `deferred_ = false`, no holder, no end marker, and every cell is still linked
+    (either valid, or the dummy of a slot that was empty when connected): "the signal holds exactly the
+    still-connected slots" -/
+theorem quiescent_clean (fuel : Nat) (P : Prog) (ls : List Line) (s : St)
+    (h : runTop fuel P {} ls = some s) (i : Nat) (im : Impl) (hi : aget s.impls i = some im) :
+    im.exec = 0 ∧ im.deferred = false ∧ im.holders = 0 ∧
+    ∀ c ∈ im.cells, c.slot.rep.isSome = true ∧ c.linked = true := by
+  have g := runTop_good fuel P {} ls s Sigc.Emit.inv_init h
+  have hx : im.exec = 0 := by
+    have := g.frame.exec i
+    rw [execOf_pos hi] at this
+    simpa [execOf, aget] using this
+  have hok := g.inv.ok i im hi
+  have hd := hok.q1 hx
+  refine ⟨hx, hd, by have := hok.eh; omega, ?_⟩
   intro c hc
-  simp at hc
-  simpa using hc.2
+  have hn := hok.no_markers hx c hc
+  refine ⟨?_, hok.d hd c hc hn⟩
+  cases hr : c.slot.rep <;> simp_all
 
-example : (notifyParent { impls := [(1, { cells := [{ id := 2, slot := {}, linked := false }], exec := 1 })] } 1 2).impls
-    = [(1, { cells := [{ id := 2, slot := {}, linked := false }], exec := 1, deferred := true })] := by
-  simp [notifyParent, aget, setImpl, aset]
+/-- in particular no cell is invalid *and* unlinked (a disconnected slot is gone) -/
+theorem quiescent_no_dead_cell (fuel : Nat) (P : Prog) (ls : List Line) (s : St)
+    (h : runTop fuel P {} ls = some s) (i : Nat) (im : Impl) (hi : aget s.impls i = some im) :
+    ∀ c ∈ im.cells, ¬ (c.slot.empty = true ∧ c.linked = false) := by
+  intro c hc hcon
+  have := (quiescent_clean fuel P ls s h i im hi).2.2.2 c hc
+  rw [this.2] at hcon
+  exact absurd hcon.2 (by simp)
+
+
+/-! ## a concrete instance
+
+`demo`: a void signal with two slots; the first slot, when invoked, disconnects itself, connects a new
+slot, re-emits the same signal recursively (until the depth limit 3 answers `toodeep`) and clears the
+signal — all from inside the emission. -/
+
+def demo : Prog := {
+  bodies := [(1, [⟨"disc c1", .disc 1⟩, ⟨"connfn c3 g0 fn:2", .connfn 3 0 (.fn 2) false⟩,
+                  ⟨"emit g0 5", .emit 0 5 .sum false⟩, ⟨"clear g0", .clear 0⟩])],
+  top := [⟨"newG g0 V", .newG 0 (some .V)⟩, ⟨"connfn c1 g0 fn:1", .connfn 1 0 (.fn 1) false⟩,
+          ⟨"connfn c2 g0 fn:2", .connfn 2 0 (.fn 2) false⟩, ⟨"emit g0 7", .emit 0 7 .sum false⟩],
+  maxdepth := 3 }
+
+/-- the run terminates with fuel 30 (so the theorems below are not vacuous on it) … -/
+example : (runTop 30 demo {} demo.top).isSome = true := by decide +kernel
+
+/-- … and `safe` / `quiescent_clean` apply to it -/
+example (s : St) (h : runTop 30 demo {} demo.top = some s) : s.err = none := safe 30 demo s h
+
+example (s : St) (h : runTop 30 demo {} demo.top = some s) (i : Nat) (im : Impl)
+    (hi : aget s.impls i = some im) : im.exec = 0 ∧ im.deferred = false :=
+  let q := quiescent_clean 30 demo demo.top s h i im hi
+  ⟨q.1, q.2.1⟩
+
+/-- `Frame` on a concrete pair of states: a connect during an emission appends after the block -/
+def exImplA : Impl := { cells := [{ id := 2, slot := {}, linked := false }], exec := 1, holders := 1 }
+def exImplB : Impl :=
+  { cells := [{ id := 2, slot := {}, linked := false },
+              { id := 3, slot := { rep := some { call := true, fn := none } }, linked := true }],
+    exec := 1, holders := 1 }
+
+example : Frame ({ impls := [(1, exImplA)], next := 3 } : St) ({ impls := [(1, exImplB)], next := 4 } : St) := by
+  refine ⟨by decide, ?_, ?_, fun _ => rfl⟩
+  · intro i; simp only [execOf, aget]; by_cases e : 1 = i <;> simp [e, exImplA, exImplB]
+  · intro i im hi _
+    simp only [aget] at hi
+    by_cases e : 1 = i
+    · simp [e] at hi; subst hi
+      exact ⟨exImplB, by simp [aget, e], [], [(3, false)], by simp [skel, exImplA, exImplB]⟩
+    · simp [e] at hi
 
 end Sigc.C03
